@@ -64,6 +64,11 @@ Theorem C16_withmap_before_repair_refuted :
   outers_of (wm_chain rf_m [] []) [[101]%N] rf_body_lookups = [rf_m].
 Proof. exact withmap_before_repair_refuted. Qed.
 
+Theorem C16_withmap_before_repair_generate_refuted :
+  P2.Sem.Gen.gen_check 50 [Some rf_m] [] (rf_prog (outers_of_old (wm_chain rf_m [] []) [[101]%N] rf_body_lookups)) = false /\
+  P2.Sem.Gen.gen_check 50 [Some rf_m] [] (rf_prog (outers_of (wm_chain rf_m [] []) [[101]%N] rf_body_lookups)) = true.
+Proof. exact withmap_before_repair_generate_refuted. Qed.
+
 (* non-vacuity: table + * with  pi  constant and  sqr  static;  sqr(a) + pi * b  under a closure parameter b:
    a is an attribute, b is the parameter, pi and sqr are the generator's *)
 Definition q_cfg : pcfg := mkPcfg [[43]; [42]]%N [] (Some (fun s => Some s)) (Some (fun s => s)).
@@ -91,3 +96,4 @@ Print Assumptions C16_shadowing_const.
 Print Assumptions C16_outers_agree.
 Print Assumptions C16_recursive_agree.
 Print Assumptions C16_withmap_before_repair_refuted.
+Print Assumptions C16_withmap_before_repair_generate_refuted.
